@@ -103,6 +103,12 @@ pub fn run_op(line: &str) -> String {
                 Err(_) => "notutf8".into(),
                 Ok(s) => {
                     let inv = mqtt_proto::TopicName::is_invalid(&s);
+                    {
+                        let mut roomy = String::with_capacity(70_000 + s.len());
+                        roomy.push_str(&s);
+                        let a = mqtt_proto::TopicName::try_from(roomy).is_ok();
+                        assert!(a == !inv, "TopicName::try_from on a String with spare capacity disagrees with is_invalid");
+                    }
                     match mqtt_proto::TopicName::try_from(s.clone()) {
                         Err(_) => {
                             assert!(inv, "try_from rejects what is_invalid accepts");
@@ -245,6 +251,14 @@ fn opt_hex(o: Option<&str>) -> String {
 pub fn op_tf(s: String) -> String {
     use mqtt_proto::TopicFilter;
     let (inv, sep) = TopicFilter::is_invalid(&s);
+    // the same text in a String with a LARGE spare capacity (grown by pushes, or pre-allocated): the verdict is
+    // about the text, not about the allocation
+    {
+        let mut roomy = String::with_capacity(70_000 + s.len());
+        roomy.push_str(&s);
+        let a = TopicFilter::try_from(roomy).is_ok();
+        assert!(a == !inv, "TopicFilter::try_from on a String with spare capacity {} the text that is_invalid {}", if a { "accepts" } else { "rejects" }, if inv { "rejects" } else { "accepts" });
+    }
     match TopicFilter::try_from(s.clone()) {
         Err(e) => {
             assert!(inv, "try_from rejects what is_invalid accepts: {e:?}");
